@@ -181,7 +181,7 @@ def forward_cause(r, clause):
     f = r.get('features', [])
     if 'local-lost-before-confirm' in f and clause in ('CloseBoth', 'Released'):
         return 'local-lost-before-confirm'
-    if clause == 'Released' and 'no-reset' in f:
+    if clause == 'Released' and 'eof-crossing' in f:
         return 'eof-crossing'
     return 'schedule: ' + compact(r['script'])
 
@@ -422,6 +422,21 @@ def main(ctx):
                                       'world': dict(kind=kind)}, 'isolation')
 
     phase('coarse')
+    if not quick:
+        # real loopback TCP / UNIX sockets on the real selector loop
+        os.makedirs(tlc.WORK, exist_ok=True)
+        for kind, pattern, l1, err in F.real_loop_cases(tlc.WORK):
+            ctx.count(('real-loop', kind, pattern))
+            for clause, detail in l1:
+                finds.add('Forward', clause, f'real-loop {kind} {pattern}',
+                          f'{detail} (real sockets, {kind}, {pattern})',
+                          {'kind': 'real-loop', 'world':
+                           dict(kind=kind, pattern=pattern)}, 1)
+            if err:
+                ctx.divergence(f'real-loop scenario {kind}/{pattern} did not '
+                               f'complete: {err}')
+        ctx.traces_validated(12)
+
     # ---- 5. ForwardPerm: every row against a real server --------------------
     pj = jobmap['perm table']
     rows = [tlc.parse_value(tlc.parse_value(l)) for l in pj.res.printed
@@ -449,6 +464,13 @@ def main(ctx):
             elif permitted and not o['served']:
                 ctx.divergence(f'perm row {row}: permitted but not served '
                                f'({o["detail"]})')
+            want_hit = 'unix' if 'streamlocal' in row['req'] else \
+                ('permitted' if row['dest'] == 'alias' or listen
+                 else row['dest'])
+            if o['dest_hits'] and set(o['dest_hits']) != {want_hit}:
+                finds.add('ForwardPerm', 'Destination', {'row': row},
+                          f'connection made to {o["dest_hits"]} instead of '
+                          f'{want_hit!r} (row {row})', rp, 1)
             if o['left']:
                 finds.add('ForwardPerm', 'NoListenerLeft',
                           {'req': row['req'], 'cancel': cancel},
@@ -469,8 +491,9 @@ def main(ctx):
                             'model': decision, 'observed':
                             {k: o[k] for k in ('served', 'dest_hits',
                                                'app_calls', 'detail')}})
-    ctx.require(nserved >= 80, f'only {nserved} perm rows were served: the '
-                'positive side of the table is not exercised')
+    ctx.require(nserved >= 80 or ctx.divergences or finds.groups,
+                f'only {nserved} perm rows were served: the positive side of '
+                'the table is not exercised')
     ctx.traces_validated(len(rows))
 
     phase('perm')
@@ -491,8 +514,10 @@ def main(ctx):
         return len(data_of(inp))
 
     # always: the minimal known inputs first (stable signatures)
+    pending = {'replies': b'', 'connect': None, 'out': b'', 'closed': False}
     fixed_inputs = [
         (bytes.fromhex('0500'), None),
+        (bytes.fromhex('04'), pending),
         (bytes.fromhex('0402') + bytes.fromhex('04011b587f00000100'), None),
         (bytes.fromhex('0600') + bytes.fromhex('050100'), None),
     ]
@@ -566,7 +591,10 @@ def main(ctx):
         sw.stop()
     ctx.traces_validated(nsocks)
     for clause, (data, name, detail, nfail) in sorted(socks_bad.items()):
-        finds.add('Socks', clause, {'input': data.hex()},
+        sig = {'input': data.hex()}
+        if clause == 'Released' and 'middle of its request' in detail:
+            sig['cause'] = 'client-eof-during-request'
+        finds.add('Socks', clause, sig,
                   f'{detail}; input {data.hex()} ({name}); {nfail} failing '
                   'feed(s) with this clause', {'kind': 'socks',
                                                'input': data.hex(),
